@@ -328,12 +328,8 @@ func (e *env) clientAdd(ctx context.Context, c client.Client, r *reqT) (string, 
 	b("rawleaves", &params.RawLeaves)
 	b("nocopy", &params.NoCopy)
 	b("alocal", &params.Local)
-	switch a["cidv"] {
-	case "one":
+	if a["cidv"] == "one" { // raw leaves stay as the caller states them (api.AddParams.RawLeaves)
 		params.CidVersion = 1
-		if a["rawleaves"] == "absent" {
-			params.RawLeaves = true
-		}
 	}
 	switch a["chunker"] {
 	case "size1024":
